@@ -133,7 +133,7 @@ def run(R):
     kinds = {}
     for i in range(0, len(jobs), 400):
         recs = gramrun.run_grammars(jobs[i:i + 400], chunk=8)
-        gramrun.compare(R, recs, 'entry', mechanism_of)
+        gramrun.compare(R, recs, 'entry', mechanism_of, reject_is_violation=True)
         # distribution of parse() outcomes + the shift law, on the implementation
         for r in recs:
             if r.get('model') is None:
